@@ -1,77 +1,67 @@
 (* C18 — reflecttools Map / Any / ZipReduce obey their structural laws.
    Only statements, each closed by `exact`, with Print Assumptions beneath. Model: Reflect.v (transcription of
-   gomini/reflecttools/reflect.go), proofs: ReflectSpec.v.  Deep equality (reflect.DeepEqual on one static type)
-   is equality of gvals (ReflectSpec.gval_eqb_eq); the nil / empty-non-nil distinction is the bool of GSlice / GMap. *)
+   gomini/reflecttools/reflect.go after "fix: reflecttools.Map keeps nil slices, nil maps and nil elements"),
+   proofs: ReflectSpec.v.  Deep equality (reflect.DeepEqual on one static type) is equality of gvals
+   (ReflectSpec.gval_eqb_eq); the nil / empty-non-nil distinction is the bool of GSlice / GMap, the static
+   interface-typing of a slot is GNil / GIface. *)
 From Coq Require Import List NArith ZArith Bool Permutation.
 From GMK Require Import Reflect ReflectSpec.
 Import ListNotations.
 
-(* Map with the identity function returns a deeply equal value EXACTLY for the values that are not a nil slice,
-   not a nil map, and have no nil-interface field / element / map value.  (This is the true theorem; the
-   property as written -- "for pointers to structs, slices or maps ... a deeply equal value" -- is refuted below.) *)
-Theorem C18_map_id : forall x,
-  fst (rmap (fun a => a) x) = MRet x <->
-  (~ In GNil (mchildren x) /\ (forall es, x <> GSlice true es) /\ (forall en, x <> GMap true en)).
-Proof. exact rmap_id_iff. Qed.
+(* Map with the identity function returns a deeply equal value for EVERY well-formed value (pointers to structs,
+   slices, maps -- nil, empty or not, with nil pointers, nil interfaces, nil slices, nil maps inside -- and everything
+   else), calling the function exactly once per field / element / map value, in order. *)
+Theorem C18_map_id : forall x, wfb x = true -> rmap (fun a => a) x = (x, mchildren x).
+Proof. exact rmap_id_wf. Qed.
 Print Assumptions C18_map_id.
 
-(* nil stays nil (untyped nil and nil pointers), for every function, and the function is not called *)
-Theorem C18_map_nil : forall f x, is_nil x = true -> rmap f x = (MRet x, []).
+(* the exact frontier: the only encodings on which identity-Map is not the identity have a slot "interface holding
+   the nil interface", which is not a Go value (wfb excludes it; the harness encoder never produces it) *)
+Theorem C18_map_id_exact : forall x, fst (rmap (fun a => a) x) = x <-> ~ In (GIface GNil) (mslots x).
+Proof. exact rmap_id_iff. Qed.
+Print Assumptions C18_map_id_exact.
+
+(* nil stays nil, for every function, and the function is not called: the nil interface, nil pointers,
+   nil slices and nil maps *)
+Theorem C18_map_nil : forall f x, is_nil x = true \/ container_nil x = true -> rmap f x = (x, []).
 Proof. exact rmap_nil. Qed.
 Print Assumptions C18_map_nil.
 
-(* the property as written fails on the tree as read: well-formed slices / maps / struct pointers whose identity-Map
-   is not deeply equal to the argument -- the nil slice and the nil map come back EMPTY NON-NIL, a nil-interface
-   element or field makes Map panic, a nil-interface map value is dropped from the result *)
-Theorem C18_map_id_refuted :
-  (exists x, wfb x = true /\ kind_of x = KSlice /\ rmap (fun a => a) x = (MRet (GSlice false []), []) /\ x <> GSlice false []) /\
-  (exists x, wfb x = true /\ kind_of x = KMap /\ rmap (fun a => a) x = (MRet (GMap false []), []) /\ x <> GMap false []) /\
-  (exists x, wfb x = true /\ kind_of x = KSlice /\ fst (rmap (fun a => a) x) = MPanic) /\
-  (exists x, wfb x = true /\ kind_of x = KPtr /\ elem_kind x = KStruct /\ fst (rmap (fun a => a) x) = MPanic) /\
-  (exists x, wfb x = true /\ kind_of x = KMap /\ mkeys x = [7%N] /\ fst (rmap (fun a => a) x) = MRet (GMap false [])).
-Proof.
-  split; [exists (GSlice true []); vm_compute; repeat split; discriminate|].
-  split; [exists (GMap true []); vm_compute; repeat split; discriminate|].
-  split; [exists (GSlice false [GScalar 0 1; GNil]); vm_compute; repeat split|].
-  split; [exists (GStructPtr [GNil; GSlice true []]); vm_compute; repeat split|].
-  exists (GMap false [(7%N, GNil)]); vm_compute; repeat split.
-Qed.
-Print Assumptions C18_map_id_refuted.
-
-(* f is applied exactly once per field / element / map value, in index order (the call log IS the list of
-   children); if Map panics (f returned the nil interface for a field / element) the log is the prefix up to and
-   including the offending child *)
-Theorem C18_map_calls : forall f x,
-  (fst (rmap f x) <> MPanic -> snd (rmap f x) = mchildren x) /\
-  (fst (rmap f x) = MPanic ->
-     exists l1 a l2, mchildren x = l1 ++ a :: l2 /\ (forall b, In b l1 -> f b <> GNil) /\ f a = GNil /\
-                     snd (rmap f x) = l1 ++ [a]).
+(* f is applied exactly once per field / element / map value, in index order: the call log IS the list of children *)
+Theorem C18_map_calls : forall f x, snd (rmap f x) = mchildren x.
 Proof. exact rmap_calls. Qed.
 Print Assumptions C18_map_calls.
 
 (* Go iterates maps in random order: any other order gives the same result and the same calls up to permutation *)
-Theorem C18_map_calls_perm : forall f n en en', Permutation en en' ->
-  Permutation (snd (rmap f (GMap n en))) (snd (rmap f (GMap n en'))) /\
-  exists m m', fst (rmap f (GMap n en)) = MRet (GMap false m) /\
-               fst (rmap f (GMap n en')) = MRet (GMap false m') /\ Permutation m m'.
+Theorem C18_map_calls_perm : forall f en en', Permutation en en' ->
+  Permutation (snd (rmap f (GMap false en))) (snd (rmap f (GMap false en'))) /\
+  exists m m', fst (rmap f (GMap false en)) = GMap false m /\
+               fst (rmap f (GMap false en')) = GMap false m' /\ Permutation m m'.
 Proof. exact rmap_map_perm. Qed.
 Print Assumptions C18_map_calls_perm.
 
-(* the result has the same kind, the same pointee kind, and -- unless f returns the nil interface for a map
-   value -- the same keys and exactly the images of the children in order (so the same length); a nil slice / map
-   is never produced (a nil result can only be the argument itself, returned unchanged) *)
-Theorem C18_map_shape : forall f x v, fst (rmap f x) = MRet v ->
-  kind_of v = kind_of x /\ elem_kind v = elem_kind x /\
-  (kind_of x <> KMap \/ (forall a, In a (mchildren x) -> f a <> GNil) ->
-     mchildren v = map f (mchildren x) /\ mkeys v = mkeys x) /\
-  (forall n es, v <> GSlice true es /\ v <> GMap true n \/ v = x).
+(* the result has the same kind, pointee kind, nil-ness, keys and number of slots; slot i holds what the function
+   returned for child i -- the zero value of the slot's type when it returned the untyped nil ([store]);
+   when the function returns proper values ([plain]: neither the untyped nil nor an interface wrapper), the children
+   of the result are exactly the images of the children, in order *)
+Theorem C18_map_shape : forall f x,
+  let v := fst (rmap f x) in
+  kind_of v = kind_of x /\ elem_kind v = elem_kind x /\ container_nil v = container_nil x /\
+  mkeys v = mkeys x /\
+  mslots v = map (fun s => store s (f (unwrap s))) (mslots x) /\
+  ((forall a, In a (mchildren x) -> plain (f a)) -> mchildren v = map f (mchildren x)).
 Proof. exact rmap_shape. Qed.
 Print Assumptions C18_map_shape.
+
+Theorem C18_map_store : forall s b,
+  (b = GNil -> store s b = zero_of s) /\ (plain b -> unwrap (store s b) = b) /\ zero_of (zero_of s) = zero_of s.
+Proof. exact store_spec. Qed.
+Print Assumptions C18_map_store.
 
 (* everything that is not a pointer to a struct, a slice or a map is returned as is, f is never called *)
 Theorem C18_map_other : forall f x,
   (forall fs, x <> GStructPtr fs) -> (forall n es, x <> GSlice n es) -> (forall n en, x <> GMap n en) ->
-  rmap f x = (MRet x, []).
+  rmap f x = (x, []).
 Proof. exact rmap_other. Qed.
 Print Assumptions C18_map_other.
 
@@ -134,14 +124,25 @@ Print Assumptions C18_zip_shape_exhaustive.
 Example C18_nonvacuous :
   let s3 := GStructPtr [GNilPtr; GSlice true []; GPtr (GScalar 0 3); GMap true []] in         (* &S{C: &3} *)
   let s5 := GStructPtr [s3; GSlice false [s3; GNilPtr]; GPtr (GScalar 0 5); GMap false [(1%N, s3)]] in
+  let w := GStructPtr [GNil; GSlice false [GNil; GIface (GScalar 0 1); GIface s3]] in         (* &W{V: nil, L: []any{nil, 1, s3}} *)
+  let anys := GSlice false [GNil; GIface (GScalar 0 1); GIface GNilPtr] in                    (* []any{nil, 1, nil pointer to int} *)
   let inc := fun a => match a with GPtr (GScalar k n) => GPtr (GScalar k (n + 1)) | _ => a end in
   let isnil := fun a => match a with GNilPtr => true | _ => false end in
   let sum := fun a b (acc : Z) => match a, b with GScalar _ m, GScalar _ n => (acc + m - n)%Z | _, _ => 0%Z end in
   let ints := fun l => GSlice false (map (GScalar 0) l) in
-  (* identity Map: deeply equal, four calls in field order *)
-  rmap (fun a => a) s5 = (MRet s5, [s3; GSlice false [s3; GNilPtr]; GPtr (GScalar 0 5); GMap false [(1%N, s3)]]) /\
-  (* a non-identity function lands in the right slot *)
-  fst (rmap inc s5) = MRet (GStructPtr [s3; GSlice false [s3; GNilPtr]; GPtr (GScalar 0 6); GMap false [(1%N, s3)]]) /\
+  wfb s5 = true /\ wfb w = true /\ wfb anys = true /\
+  (* identity Map: deeply equal, four calls in field order; nil slices, nil maps, nil interfaces survive *)
+  rmap (fun a => a) s5 = (s5, [s3; GSlice false [s3; GNilPtr]; GPtr (GScalar 0 5); GMap false [(1%N, s3)]]) /\
+  rmap (fun a => a) w = (w, [GNil; GSlice false [GNil; GIface (GScalar 0 1); GIface s3]]) /\
+  rmap (fun a => a) anys = (anys, [GNil; GScalar 0 1; GNilPtr]) /\
+  rmap (fun a => a) (GMap false [(2%N, GNil); (4%N, GIface (GScalar 0 1))]) =
+    (GMap false [(2%N, GNil); (4%N, GIface (GScalar 0 1))], [GNil; GScalar 0 1]) /\
+  rmap (fun a => a) (GSlice true []) = (GSlice true [], []) /\
+  (* a non-identity function lands in the right slot; an untyped nil result becomes the zero value of the slot *)
+  fst (rmap inc s5) = GStructPtr [s3; GSlice false [s3; GNilPtr]; GPtr (GScalar 0 6); GMap false [(1%N, s3)]] /\
+  fst (rmap (fun _ => GNil) s5) = GStructPtr [GNilPtr; GSlice true []; GNilPtr; GMap true []] /\
+  fst (rmap (fun _ => GNil) anys) = GSlice false [GNil; GNil; GNil] /\
+  fst (rmap (fun _ => GNil) (ints [4; 5]%Z)) = ints [0; 0]%Z /\
   (* Any stops at the first hit: two calls, not three *)
   rany isnil (GSlice false [s3; GNilPtr; s5]) = (true, [s3; GNilPtr]) /\
   rany isnil (GMap false [(1%N, GNilPtr)]) = (false, []) /\
